@@ -194,7 +194,7 @@ PROPS = {
                         "in the HTTP cases a panic on any thread of the process is seen through the panic hook (counted), the daemon must answer /health afterwards, and 'unchanged' is judged on the configuration an administrator can read back (CA list, configured ROAs/ASPAs/router keys, parents, children with entitlements and identity, publishers), not on objects that background tasks issue",
                         "the harness is built like krill's release profile without overflow checks (wrapping arithmetic is not a panic in the shipped binary) but with unwinding so that a panic can be observed",
                         "process exits are observed through hook H-exit (commons/verif exit_point) and count like panics"],
-        "technique": "generator-driven fuzzing (proptest strategies for structured byte, XML-token and JSON-tree mutations of valid messages) with the oracle inside the target: catch_unwind + exit hook for 'no panic, no exit', and a configuration/content digest compared around every request that returned an error; plus route-table-driven mutation of paths, queries and bodies against the real daemon over its sockets (panic hook, health probe, configuration digest)",
+        "technique": "generator-driven fuzzing (proptest strategies for structured byte, XML-token and JSON-tree mutations of valid messages) with the oracle inside the target: catch_unwind + exit hook for 'no panic, no exit', and a configuration/content digest compared around every request that returned an error; plus route-table-driven mutation of paths, queries and bodies against the real daemon over its sockets (panic hook, health probe, configuration digest); HTTP part: path segments include integer limits as a kind of their own, and routes that take no body are mostly sent none, so that mutated paths and queries get behind the early request checks",
         "level_text": "Exploration by structured mutation fuzzing in-process and over the daemon's sockets; tens of thousands of hostile inputs per quick run. Sampling, not proof; not coverage-guided.",
         "level_note": "Trusted base: the manager entry points are what the HTTP handlers call; the hand-written HTTP client; the route table for the shape of paths and bodies.",
     },
